@@ -1,6 +1,7 @@
 SPECIFICATION Spec
 CONSTANTS
   Rich = FALSE
+  LengthFastPath = FALSE
   StrictIdText = FALSE
 INVARIANTS RejectInvalidLaw
 CHECK_DEADLOCK FALSE
